@@ -408,6 +408,60 @@ for _op in ("add", "sub", "mul"):
     MODELS["core::num::checked_" + _op] = _checked(_op)
 
 
+def _saturating(op):
+    def f(ctx, args):
+        return ("isat" + op, args[0], args[1], _self_int_ty(ctx))
+    return f
+
+
+for _op in ("add", "sub"):
+    MODELS["core::num::saturating_" + _op] = _saturating(_op)
+
+
+@model("std::result::Result::and_then")
+def m_res_and_then(ctx, args):
+    eng = ctx.eng
+    v = args[0]
+    c = variant_cond(eng, v, 0)
+    r = guarded(ctx, c, lambda: call_closure(ctx, args[1], [payload(eng, v, 0)])) if c != 0 else UNDEF
+    return eng.mk_ite(c, r, err(payload(eng, v, 1)))
+
+
+@model("std::option::Option::and_then")
+def m_opt_and_then(ctx, args):
+    eng = ctx.eng
+    v = args[0]
+    c = variant_cond(eng, v, 1)
+    r = guarded(ctx, c, lambda: call_closure(ctx, args[1], [payload(eng, v, 1)])) if c != 0 else UNDEF
+    return eng.mk_ite(c, r, NONE)
+
+
+@model("core::num::is_positive")
+def m_is_positive(ctx, args):
+    x = args[0]
+    if x[0] == "int":
+        return ("b", 1 if x[1] > 0 else 0)
+    return ("b", ctx.eng.bdd.var(("icmp", "Lt", ("int", 0), x, _self_int_ty(ctx))))
+
+
+@model("std::cmp::Ord::min", "core::cmp::min", "std::cmp::min")
+def m_min(ctx, args):
+    a, b = args[0], args[1]
+    if a[0] == "int" and b[0] == "int":
+        return ("int", min(a[1], b[1]))
+    t = ctx.arg_ty(0)
+    return ("imin", a, b, ty_str(t) if t else "?")
+
+
+@model("std::cmp::Ord::max", "core::cmp::max", "std::cmp::max")
+def m_max(ctx, args):
+    a, b = args[0], args[1]
+    if a[0] == "int" and b[0] == "int":
+        return ("int", max(a[1], b[1]))
+    t = ctx.arg_ty(0)
+    return ("imax", a, b, ty_str(t) if t else "?")
+
+
 # ---------------------------------------------------------------- Option / Result / bool helpers
 def split_opt(ctx, v, kind):
     """View an Option/Result term as (cond_is_first_variant1?, payload_if_some/ok, payload_else)."""
